@@ -14,7 +14,7 @@ pub fn run(tier: Tier) -> i32 {
     let lens: &[usize] = tier.pick(&[2, 3, 4, 5, 10, 25], &[2, 3, 4, 5, 6, 7, 8, 10, 15, 20, 25, 30, 35, 40]);
     let betas = [0.0, 0.1, 0.3, 0.5];
     let alphas = [0.0, 0.3, 0.6];
-    rep.set_rule("SCOPE: cepstrum lattice of C06 (scaled so (1+beta) x shape <= 2 Np) x beta {0,.1,.3,.5} x alpha {0,.3,.6} x vector lengths, plus tilt-dominated spectra (|c1| in {1.2,1.5,1.8}, |c2| in {.2,.4}, all sign pairs) for which the emphasis can lower the energy; second pulse of a stationary 2-frame run through the real Vocoder; oracle: log|H_beta|-log|H_0|-beta*sum_{m>=2} c_m cos(m w~) constant over frequency within 0.01 Np, impulse-response energy within 1%, beta=0 and length 2 bit-identical to no postfilter; plus unvoiced frames: the noise-excited output equals the noise convolved with the pulse response measured on voiced frames; plus histories: the last frame after a linear glide between two cepstra over 8, 300 or 2500 (thorough: 12000) frames obeys the same two laws; distinct = (length, alpha, beta, cepstrum); non-trivial = beta>0 and length>2");
+    rep.set_rule("SCOPE: cepstrum lattice of C06 (scaled so (1+beta) x shape <= 2 Np) x beta {0,.1,.3,.5} x alpha {0,.3,.6} x vector lengths, plus very quiet and very loud frames (c0 -20, -30, 8); plus tilt-dominated spectra (|c1| in {1.2,1.5,1.8}, |c2| in {.2,.4}, all sign pairs) for which the emphasis can lower the energy; second pulse of a stationary 2-frame run through the real Vocoder; oracle: log|H_beta|-log|H_0|-beta*sum_{m>=2} c_m cos(m w~) constant over frequency within 0.01 Np, impulse-response energy within 1%, beta=0 and length 2 bit-identical to no postfilter; plus unvoiced frames: the noise-excited output equals the noise convolved with the pulse response measured on voiced frames; plus histories: the last frame after a linear glide between two cepstra over 8, 300 or 2500 (thorough: 12000) frames obeys the same two laws; distinct = (length, alpha, beta, cepstrum); non-trivial = beta>0 and length>2");
     rep.assume("lattice cepstra only; energy measured on the truncated pulse response (tail < 1e-7 of peak)");
     let mut cases: Vec<(usize, f64, f64, Vec<f64>)> = Vec::new();
     for &len in lens {
@@ -48,6 +48,15 @@ pub fn run(tier: Tier) -> i32 {
             }
         }
     }
+    // the energy law is relative: it holds just as well for very quiet and very loud frames (c0 = -20, -30, +8)
+    let ncases_before_levels = cases.len();
+    for &len in &[3usize, 6] {
+        for &alpha in &[0.0, 0.42] {
+            for p in patterns(len).into_iter().step_by(3) {
+                cases.push((len, alpha, 1.0, p));
+            }
+        }
+    }
     let worst = Mutex::new((0.0f64, 0.0f64));
     let grid = freq_grid(nfreq);
     let nontriv = std::sync::atomic::AtomicU64::new(0);
@@ -60,7 +69,7 @@ pub fn run(tier: Tier) -> i32 {
                 c[m] *= scale / mx;
             }
         }
-        c[0] = 0.3;
+        c[0] = if i >= ncases_before_levels { [-20.0, -30.0, 8.0][i % 3] } else { 0.3 };
         let base = match pulse_frames(*len, *alpha, 0.0, &c, 2, 2_000_000) {
             Ok(b) => b,
             Err(p) => {
